@@ -161,7 +161,7 @@ NOT_BUILT = 'in reach of the technique (DESIGN.md section 5) but its contracts a
 NOT_APPLICABLE = {
     'C02': NUMERIC, 'C03': NUMERIC, 'C06': NUMERIC, 'C11': NUMERIC, 'C15': NUMERIC,
     'C17': NUMERIC + '; NearestNeighbor is a C++ template over user types that neither the C extraction nor the CBMC C++ front end can take',
-   'C09': NOT_BUILT,
+   'C09': NUMERIC + '; its one discrete clause (a course that reaches a pole returns NaN longitude and area) lives in RhumbLine::GenPosition, whose body works on AuxAngle objects by value (temporaries, chained method calls) that the C extraction rules cannot express and the CBMC C++ front end cannot parse',
        
 }
 
